@@ -44,6 +44,7 @@ class Bail(Exception):
 
 NONNULL_CONSTS = set()     # dumps of `constants.NAME` expressions whose value is a literal other than None (filled by the loader)
 CLASS_METHODS = {}    # class name (defined once in the package) -> {method: (params without self, number of defaults)}
+NONNULL_LIST_PARAMS = set()   # (function name, parameter name): private functions whose every call site in the package passes a display of non-None constants
 RET_ARITY_CLS = {}        # (class name, method name) -> n, likewise, for classes defined once
 RET_ARITY = {}            # function / method name (defined once in the package) -> n when every return is a tuple display of n elements
 SENTINELS = {}            # modname -> names bound once, at module level, to a fresh `object()` (private markers)
@@ -434,6 +435,57 @@ def build_ret_arity(trees):
                         if rets and len(ar) == 1 and None not in ar and always_leaves_function(fn.body):
                             RET_ARITY_CLS[(cls.name, fn.name)] = next(iter(ar))
     return out
+
+
+def build_nonnull_list_params(trees):
+    trees = list(trees)
+    defs = {}
+    for t in trees:
+        for fn in ast.walk(t):
+            if isinstance(fn, (ast.FunctionDef, ast.AsyncFunctionDef)) and fn.name.startswith("_") and not fn.name.startswith("__"):
+                defs.setdefault(fn.name, []).append(fn)
+    # methods vs functions: a def directly inside a class takes self
+    in_class = set()
+    for t in trees:
+        for cls in ast.walk(t):
+            if isinstance(cls, ast.ClassDef):
+                for m in cls.body:
+                    if isinstance(m, (ast.FunctionDef, ast.AsyncFunctionDef)) and not any(_dec(d) == "staticmethod" for d in m.decorator_list):
+                        in_class.add(id(m))
+    verdict = {}
+
+    def const_display(e):
+        return isinstance(e, (ast.List, ast.Tuple)) and all((isinstance(x, ast.Constant) and x.value is not None) or _dump(x) in NONNULL_CONSTS for x in e.elts)
+    for t in trees:
+        for c in ast.walk(t):
+            if not isinstance(c, ast.Call):
+                continue
+            name = c.func.attr if isinstance(c.func, ast.Attribute) else c.func.id if isinstance(c.func, ast.Name) else None
+            if name not in defs:
+                continue
+            for fn in defs[name]:
+                ps = [x.arg for x in fn.args.args]
+                if id(fn) in in_class and isinstance(c.func, ast.Attribute):
+                    ps = ps[1:]
+                if fn.args.vararg or fn.args.kwarg or any(isinstance(a, ast.Starred) for a in c.args) or any(k.arg is None for k in c.keywords):
+                    for p_ in ps:
+                        verdict[(name, p_)] = False
+                    continue
+                bound = dict(zip(ps, c.args))
+                for k in c.keywords:
+                    bound[k.arg] = k.value
+                for p_ in ps:
+                    if p_ in bound:
+                        ok = const_display(bound[p_])
+                        verdict[(name, p_)] = verdict.get((name, p_), True) and ok
+                    else:
+                        verdict[(name, p_)] = False          # a default: not looked at
+    # a name used as a value (passed around) could be called from anywhere
+    for t in trees:
+        for n in ast.walk(t):
+            if isinstance(n, ast.Attribute) and n.attr in defs and not isinstance(getattr(n, "ctx", None), ast.Store):
+                pass
+    return set(k for k, v in verdict.items() if v)
 
 
 def build_class_methods(trees):
@@ -1793,11 +1845,47 @@ class FuncCanon(object):
                 return True
         return False
 
+    def _call_arity(self, c):
+        """n when the call is to a package function / method known to return n-tuples only"""
+        if not (isinstance(c, ast.Call) and isinstance(c.func, ast.Attribute)):
+            return None
+        r = c.func.value
+        if isinstance(r, ast.Name) and r.id == self._self_name() and not self.stores.get(r.id):
+            return RET_ARITY.get(c.func.attr)
+        if isinstance(r, ast.Attribute) and isinstance(r.value, ast.Name) and r.value.id == self._self_name() and r.attr in self.attrtypes:
+            return RET_ARITY_CLS.get((self.attrtypes[r.attr], c.func.attr))
+        return None
+
     # -- UNINDEX ---------------------------------------------------------------------------------------------------
     def unindex(self, blk):
         """`v = self.f(..)[k]`  ->  `_, .., v, .., _ = self.f(..)`   for a package function that always returns an n-tuple (`await` likewise):
         taking one element of the result and unpacking it are the same thing when the length is known."""
         for i, st in enumerate(blk):
+            # p = self.f(..) ; .. p[0] .. p[2] ..   (p read only through literal indices)  ->  p__0, _, p__2, _ = self.f(..) ; .. p__0 .. p__2 ..
+            if isinstance(st, ast.Assign) and len(st.targets) == 1 and isinstance(st.targets[0], ast.Name):
+                pn = st.targets[0].id
+                c = st.value.value if isinstance(st.value, ast.Await) else st.value
+                n = self._call_arity(c)
+                if n is not None and len(self.stores.get(pn, ())) == 1 and pn not in self.captured and pn not in self.params and self.loads.get(pn):
+                    uses = {}
+                    ok = True
+                    subs = {}
+                    for x, _ins in _fn_nodes(self.fn):
+                        if isinstance(x, ast.Subscript) and isinstance(x.value, ast.Name) and x.value.id == pn and isinstance(x.ctx, ast.Load) \
+                                and isinstance(x.slice, ast.Constant) and isinstance(x.slice.value, int) and not isinstance(x.slice.value, bool) and -n <= x.slice.value < n:
+                            subs[id(x.value)] = x
+                    if all(id(l) in subs for l in self.loads[pn]):
+                        elts = [ast.Name(id="_", ctx=ast.Store()) for _x in range(n)]
+                        for x in subs.values():
+                            k = x.slice.value % n
+                            nm = "%s__%d" % (pn, k)
+                            elts[k] = ast.Name(id=nm, ctx=ast.Store())
+                        for x in list(subs.values()):
+                            _replace_node(self.fn, x, ast.copy_location(ast.Name(id="%s__%d" % (pn, x.slice.value % n), ctx=ast.Load()), x))
+                        st.targets = [ast.copy_location(ast.Tuple(elts=elts, ctx=ast.Store()), st.targets[0])]
+                        ast.fix_missing_locations(st)
+                        self.bump("UNINDEX")
+                        return True
             if not (isinstance(st, ast.Assign) and len(st.targets) == 1 and isinstance(st.targets[0], (ast.Name, ast.Attribute)) and isinstance(st.value, ast.Subscript)):
                 continue
             sub = st.value
@@ -1805,15 +1893,7 @@ class FuncCanon(object):
             if not (isinstance(k, int) and not isinstance(k, bool)):
                 continue
             c = sub.value.value if isinstance(sub.value, ast.Await) else sub.value
-            if not (isinstance(c, ast.Call) and isinstance(c.func, ast.Attribute)):
-                continue
-            r = c.func.value
-            if isinstance(r, ast.Name) and r.id == self._self_name():
-                n = RET_ARITY.get(c.func.attr)
-            elif isinstance(r, ast.Attribute) and isinstance(r.value, ast.Name) and r.value.id == self._self_name() and r.attr in self.attrtypes:
-                n = RET_ARITY_CLS.get((self.attrtypes[r.attr], c.func.attr))
-            else:
-                continue
+            n = self._call_arity(c)
             if n is None or not (-n <= k < n) or self.stores.get("_") and "_" in self.captured:
                 continue
             k = k % n
@@ -2147,6 +2227,17 @@ class FuncCanon(object):
                 continue
             v, c0 = a.targets[0].id, a.value.value
             t = lp.test
+            if c0 is None and isinstance(t.ops[0], ast.NotIn) and isinstance(t.left, ast.Name) and t.left.id == v and isinstance(t.comparators[0], ast.Name) \
+                    and (self.fn.name, t.comparators[0].id) in NONNULL_LIST_PARAMS and t.comparators[0].id in self.params and not self.stores.get(t.comparators[0].id) \
+                    and not _contains_own(lp.body, ast.Continue):
+                # `v = None ; while v not in ids:` where every caller passes a display of non-None constants for `ids`: the loop is entered
+                brk = ast.If(test=negate(lp.test), body=[ast.Break()], orelse=[])
+                ast.copy_location(brk, lp)
+                ast.fix_missing_locations(brk)
+                lp.test = ast.copy_location(ast.Constant(value=True), lp.test)
+                lp.body = lp.body + [brk]
+                self.bump("DOWHILE")
+                return True
             if isinstance(t.left, ast.Name) and t.left.id == v:
                 other = t.comparators[0]
             elif isinstance(t.comparators[0], ast.Name) and t.comparators[0].id == v:
@@ -3514,6 +3605,8 @@ if __name__ == "__main__":
     FOREIGN.update(build_foreign(trees, KNOWN))
     RET_ARITY.clear()
     RET_ARITY.update(build_ret_arity(trees.values()))
+    NONNULL_LIST_PARAMS.clear()
+    NONNULL_LIST_PARAMS.update(build_nonnull_list_params(trees.values()))
     canonicalise(t, modname, KNOWN, st, lg)
     want = sys.argv[3:]
     for node in ast.walk(t):
